@@ -185,11 +185,16 @@ where
             crate::verif::spin::tick("http1_codec::listen");
             let wait_read = async {
                 let mut buffer = self.state.take_buffer();
-                if buffer.is_empty() {
+                // A non-empty buffer while waiting for a request is an incomplete head which
+                // has already been offered to the parser: more input is needed to proceed
+                if buffer.is_empty() || matches!(self.state, State::WaitingRequest(_)) {
                     if matches!(self.state, State::RequestInProgress(_)) {
                         let _ = self.upload_tx.reserve().await;
                     }
-                    self.transport_stream.read_buf(&mut buffer).await?;
+                    if self.transport_stream.read_buf(&mut buffer).await? == 0 {
+                        // the peer closed the connection (possibly in the middle of a head)
+                        buffer.clear();
+                    }
                 }
                 Ok(buffer)
             };
